@@ -28,7 +28,8 @@ struct Op {
     std::function<void(World&, const WSnap&, CallInfo&)> apply;   // fills CallInfo, then performs the call (may throw)
 };
 
-struct Limits { size_t maxFrames = 3, maxPoints = 3, maxChans = 2, maxGroups = 6, maxParamsPerGroup = 12; };
+struct Limits { size_t maxFrames = 3, maxPoints = 3, maxChans = 2, maxGroups = 6, maxParamsPerGroup = 12; bool noColumnsOnGaps = false; bool emptyFrameOnlyWhenBlank = false; bool documentedDevsOnly = false; bool noDuplicateDeclarations = false; bool noRateEditWithData = false; };
+inline bool hasGap(const WSnap& s) { for (auto& f : s.o.frames) if (f.empty()) return true; return false; }
 
 inline Param mkRate(float v) { Param p("RATE"); p.set(std::vector<float>() = {v}); return p; }
 
@@ -69,21 +70,27 @@ inline size_t nLabels(const WSnap& s, const char* g) { return pStrs(s.o, g, "LAB
 
 inline Op opPoint(const std::string& nm, const Limits& L) {
     Op o; o.name = "point(\"" + nm + "\")"; o.cls = "point(name)";
-    o.enabled = [L](const World&, const WSnap& s) { Shape sh = declaredShape(s.o); return sh.pts.size() < L.maxPoints; };
+    o.enabled = [L, nm](const World&, const WSnap& s) { if (L.noColumnsOnGaps && hasGap(s)) return false; Shape sh = declaredShape(s.o);
+        if (L.noDuplicateDeclarations) { std::string t = nm; ezc3d::removeTrailingSpaces(t); for (auto& x : sh.pts) { std::string y = x; ezc3d::removeTrailingSpaces(y); if (y == t) return false; } }
+        return sh.pts.size() < L.maxPoints; };
     o.apply = [nm](World& w, const WSnap&, CallInfo& ci) { ci.kind = K_POINT_NAME; ci.name = nm; w.c->point(nm); };
     return o;
 }
 inline Op opAnalog(const std::string& nm, const Limits& L) {
     Op o; o.name = "analog(\"" + nm + "\")"; o.cls = "analog(name)";
-    o.enabled = [L](const World&, const WSnap& s) { Shape sh = declaredShape(s.o); return sh.chans.size() < L.maxChans; };
+    o.enabled = [L, nm](const World&, const WSnap& s) { if (L.noColumnsOnGaps && hasGap(s)) return false; Shape sh = declaredShape(s.o);
+        if (L.noDuplicateDeclarations) { std::string t = nm; ezc3d::removeTrailingSpaces(t); for (auto& x : sh.chans) { std::string y = x; ezc3d::removeTrailingSpaces(y); if (y == t) return false; } }
+        return sh.chans.size() < L.maxChans; };
     o.apply = [nm](World& w, const WSnap&, CallInfo& ci) { ci.kind = K_ANALOG_NAME; ci.name = nm; w.c->analog(nm); };
     return o;
 }
 inline std::string fstr(float v) { char b[32]; snprintf(b, sizeof b, "%g", (double)v); return b; }
-inline Op opRate(const char* grp, float v) {
+inline Op opRate(const char* grp, float v, const Limits& L = Limits()) {
     Op o; o.name = std::string(grp) + ":RATE=" + fstr(v); o.cls = "param(rate)";
     std::string g = grp;
-    o.enabled = [g, v](const World&, const WSnap& s) { return fbits(pFloat(s.o, g.c_str(), "RATE", -12345.f)) != fbits(v); };
+    o.enabled = [g, v, L](const World& w, const WSnap& s) {
+        if (L.noRateEditWithData && (!s.o.frames.empty() || w.Rset[0] || w.Rset[1])) return false;   // a rate edit would make stored / prepared frames disagree with the new ratio
+        return fbits(pFloat(s.o, g.c_str(), "RATE", -12345.f)) != fbits(v); };
     o.apply = [g, v](World& w, const WSnap&, CallInfo& ci) {
         ci.kind = K_PARAM; ci.group = g; Param p = mkRate(v); ci.givenParam = snapParam(p); w.c->parameter(g, p);
     };
@@ -157,6 +164,8 @@ inline Op opFrame(const std::string& dev, const std::string& tgt, int vs, const 
         bool app; size_t idx; if (!targetIdx(tgt, s.o.frames.size(), app, idx)) return false;
         if (framesAfter(app, idx, s.o.frames.size()) > L.maxFrames) return false;
         Shape sh = declaredShape(s.o); if (dev == "ok" && sh.pts.empty() && sh.nsub == 0) return false;
+        if (L.documentedDevsOnly && dev.compare(0, 3, "pt_") == 0 && pInt(s.o, "POINT", "USED") <= 0) return false;
+        if (L.documentedDevsOnly && dev.compare(0, 3, "ch_") == 0 && pInt(s.o, "ANALOG", "USED") <= 0) return false;
         return applyDev(sh, dev);
     };
     o.apply = [dev, tgt, vs](World& w, const WSnap& s, CallInfo& ci) {
@@ -179,7 +188,7 @@ inline Op opFrameFree(const std::string& what, int vs, const Limits& L) {
 }
 inline Op opFrameEmpty(const Limits& L) {
     Op o; o.name = "frame(empty,app)"; o.cls = "frame";
-    o.enabled = [L](const World&, const WSnap& s) { return s.o.frames.size() < L.maxFrames; };
+    o.enabled = [L](const World&, const WSnap& s) { if (L.emptyFrameOnlyWhenBlank && !(nothingDeclared(s.o) || (declaredShape(s.o).pts.empty() && declaredShape(s.o).nsub == 0))) return false; return s.o.frames.size() < L.maxFrames; };
     o.apply = [](World& w, const WSnap&, CallInfo& ci) { ci.kind = K_FRAME; ci.dev = "emptyframe"; ci.append = true; Frame f; ci.given = snapFrame(f); w.c->frame(f); };
     return o;
 }
@@ -188,6 +197,7 @@ inline Op opFrameEmpty(const Limits& L) {
 inline Op opColPoint(const std::string& dev, int vs, const Limits& L) {
     Op o; o.name = "point(frames:" + dev + ",v" + std::to_string(vs) + ")"; o.cls = "point(vector)";
     o.enabled = [dev, L](const World&, const WSnap& s) {
+        if (L.noColumnsOnGaps && hasGap(s)) return false;
         Shape sh = declaredShape(s.o); size_t n = s.o.frames.size();
         size_t add = (dev == "ok2" || dev == "dup2") ? 2 : 1;
         if ((dev == "ok" || dev == "ok2") && (sh.pts.size() + add > L.maxPoints || n == 0)) return false;
@@ -216,6 +226,7 @@ inline Op opColPoint(const std::string& dev, int vs, const Limits& L) {
 inline Op opColAnalog(const std::string& dev, int vs, const Limits& L) {
     Op o; o.name = "analog(frames:" + dev + ",v" + std::to_string(vs) + ")"; o.cls = "analog(vector)";
     o.enabled = [dev, L](const World&, const WSnap& s) {
+        if (L.noColumnsOnGaps && hasGap(s)) return false;
         Shape sh = declaredShape(s.o); size_t n = s.o.frames.size();
         size_t add = (dev == "ok2" || dev == "dup2") ? 2 : 1;
         if ((dev == "ok" || dev == "ok2") && (sh.chans.size() + add > L.maxChans || n == 0)) return false;
